@@ -67,8 +67,7 @@ theorem api_methods_tied {α : Type} (F : FieldOps α) (e : Pt α) (v : Option (
     GenElementAPI.add_e_v F e v = Hand.Element.add F e v ∧ GenElementAPI.add_ev F e = Hand.Element.addSelf F e ∧
     GenElementAPI.double F e = Hand.Element.double F e ∧ GenElementAPI.negate F e = Hand.Element.negate F e ∧
     GenElementAPI.subtract_e_v F e v = Hand.Element.subtract F e v ∧
-    GenElementAPI.subtract_ev F e = Hand.Element.subtract F e (some e) ∧
-    GenElementAPI.identity F = Hand.Element.identity F :=
-  ⟨ElementApiTies.add_tie F e v, rfl, rfl, rfl, ElementApiTies.subtract_tie F e v, rfl, rfl⟩
+    GenElementAPI.subtract_ev F e = Hand.Element.subtract F e (some e) :=
+  ⟨ElementApiTies.add_tie F e v, rfl, rfl, rfl, ElementApiTies.subtract_tie F e v, rfl⟩
 
 end C02
